@@ -144,6 +144,7 @@ func mergeRuns(dst, src *HarnessRun) {
 	dst.Undecided += src.Undecided
 	dst.Decisions += src.Decisions
 	dst.UnknownBranches += src.UnknownBranches
+	dst.RetriedUnknown += src.RetriedUnknown
 	dst.IfConverted += src.IfConverted
 	dst.AllocCuts += src.AllocCuts
 	dst.CacheHits += src.CacheHits
